@@ -69,11 +69,28 @@ func checkC09(r *Run) {
 				header = phi
 			}
 		}
+		isLoopHeader := func(b *ssa.BasicBlock) bool {
+			back, entry := false, false
+			for _, p := range b.Preds {
+				if b.Dominates(p) {
+					back = true
+				} else {
+					entry = true
+				}
+			}
+			return back && entry
+		}
+		if header != nil && !isLoopHeader(header.Block()) {
+			header = nil
+		}
 		if header == nil {
-			// search any duration phi that (transitively) feeds `waited` and has a back edge
+			// a duration phi at the head of a loop around the dial (the dial need not be the first thing the loop does)
 			for _, b := range f.Blocks {
+				if !isLoopHeader(b) || !b.Dominates(m.Dial.Block()) {
+					continue
+				}
 				for _, in := range b.Instrs {
-					if phi, ok := in.(*ssa.Phi); ok && types.TypeString(phi.Type(), nil) == "time.Duration" && b.Dominates(m.Dial.Block()) {
+					if phi, ok := in.(*ssa.Phi); ok && types.TypeString(phi.Type(), nil) == "time.Duration" {
 						header = phi
 					}
 				}
@@ -194,8 +211,27 @@ func checkC09(r *Run) {
 					if in, ok := lf.V.(ssa.Instruction); ok && in.Pos().IsValid() {
 						pos = in.Pos()
 					}
+					// the loop may be written with the wait first and the attempt second (`if retrying { wait; double }`): then
+					// the value carried round is the header's own value on the way that has not waited yet, and the reset
+					// after a successful Connect travels over the back edge as well
+					carriedUnwaited := func() bool {
+						if lf.V != ssa.Value(header) || lastOf(pred) == nil {
+							return false
+						}
+						_, waitedOnTheWay := CanReach(f, m.WaitSel, func(in ssa.Instruction) bool { return in == lastOf(pred) }, PathQ{BlockInstr: func(in ssa.Instruction) bool { return in.Block() == header.Block() }})
+						return !waitedOnTheWay
+					}
+					resetOnSuccess := func() bool {
+						if !isBase(lf.V) {
+							return false
+						}
+						in, _ := lf.V.(ssa.Instruction)
+						return (in != nil && onSuccess(in)) || (lastOf(lf.Pred) != nil && onSuccess(lastOf(lf.Pred)))
+					}
 					switch g, isG := growthOf(lf.V, waited); {
 					case isG && g >= 2:
+					case carriedUnwaited():
+					case resetOnSuccess():
 					case isG:
 						okGrow = false
 						r1.Bad(key+"/growth", pos, "the back-off grows by a factor below 2")
@@ -682,8 +718,36 @@ func checkC08(r *Run) {
 			}
 		}
 	}
+	// the dial need not be the first thing the loop does: then the flag is the loop-carried boolean the decision tests
+	// (a loop may carry other booleans, e.g. "this is not the first attempt")
+	loopBools := map[*ssa.Phi]bool{}
+	if initPhi == nil {
+		for _, b := range f.Blocks {
+			back := false
+			for _, p := range b.Preds {
+				if b.Dominates(p) {
+					back = true
+				}
+			}
+			if !back || !b.Dominates(m.Dial.Block()) {
+				continue
+			}
+			for _, in := range b.Instrs {
+				if phi, ok := in.(*ssa.Phi); ok {
+					if bt, ok := phi.Type().Underlying().(*types.Basic); ok && bt.Kind() == types.Bool {
+						loopBools[phi] = true
+					}
+				}
+			}
+		}
+	}
 	atomOf := func(v ssa.Value) string {
 		rv := c.Resolve(v)
+		if initPhi == nil {
+			if phi, ok := v.(*ssa.Phi); ok && loopBools[phi] {
+				initPhi = phi
+			}
+		}
 		if initPhi != nil && v == ssa.Value(initPhi) {
 			return "initialized"
 		}
